@@ -260,6 +260,58 @@ def group_lines(rng, n):
     return lines, exp
 
 
+def color_spec_lines(rng, n):
+    """iter_color_spec_options of the REAL encoder (real preset table) under random level columns vs the model"""
+    from vc2_conformance.encoder.sequence_header import iter_color_spec_options
+    from vc2_conformance.constraint_table import ValueSet, AnyValue
+    from vc2_conformance.pseudocode.video_parameters import VideoParameters
+    from vc2_data_tables import PRESET_COLOR_SPECS
+
+    presets = ";".join("%d=%d,%d,%d" % (int(i), int(v[0]), int(v[1]), int(v[2])) for i, v in PRESET_COLOR_SPECS.items())
+    keys = ["color_primaries_index", "color_matrix_index", "transfer_function_index"]
+    lines, exp = [], []
+    triples = [tuple(int(x) for x in v) for v in PRESET_COLOR_SPECS.values()]
+    for _ in range(n):
+        def triple():
+            if rng.random() < 0.6:
+                t = list(rng.choice(triples))
+                if rng.random() < 0.4:
+                    t[rng.randrange(3)] = rng.randrange(0, 5)
+                return t
+            return [rng.randrange(0, 4), rng.randrange(0, 4), rng.randrange(0, 4)]
+        base, target = triple(), (triple() if rng.random() < 0.75 else None)
+        if target is None:
+            target = list(base)
+        flags = rng.choice([(1, 1), (1, 1), (0, 1), (1, 0)])
+        idx = None if rng.random() < 0.5 else sorted(set(rng.randrange(0, 8) for _ in range(rng.randrange(1, 5))))
+        subs = []
+        lc = {"custom_color_spec_flag": ValueSet(*[b for b, f in ((False, flags[0]), (True, flags[1])) if f]),
+              "color_spec_index": AnyValue() if idx is None else ValueSet(*idx)}
+        for fk, ik in (("custom_color_primaries_flag", "color_primaries_index"), ("custom_color_matrix_flag", "color_matrix_index"),
+                       ("custom_transfer_function_flag", "transfer_function_index")):
+            fl = rng.choice([(1, 1), (1, 1), (0, 1), (1, 0)])
+            vals = None if rng.random() < 0.6 else sorted(set(rng.randrange(0, 5) for _ in range(rng.randrange(1, 4))))
+            lc[fk] = ValueSet(*[b for b, f in ((False, fl[0]), (True, fl[1])) if f])
+            lc[ik] = AnyValue() if vals is None else ValueSet(*vals)
+            subs.append("%d%d:%s" % (fl[0], fl[1], "*" if vals is None else ",".join(map(str, vals))))
+        got = []
+        for o in iter_color_spec_options(VideoParameters(zip(keys, base)), VideoParameters(zip(keys, target)), lc):
+            if not o["custom_color_spec_flag"]:
+                got.append("off")
+            elif o["index"] != 0:
+                got.append("p%d" % o["index"])
+            else:
+                parts = []
+                for part, fk in (("color_primaries", "custom_color_primaries_flag"), ("color_matrix", "custom_color_matrix_flag"),
+                                 ("transfer_function", "custom_transfer_function_flag")):
+                    parts.append("c%d" % o[part]["index"] if o[part][fk] else "off")
+                got.append("c" + "/".join(parts))
+        lines.append("so C %s %s %s %d %d %s %s" % (",".join(map(str, base)), ",".join(map(str, target)), presets, flags[0], flags[1],
+                                                  "*" if idx is None else ",".join(map(str, idx)), " ".join(subs)))
+        exp.append(" ".join(got) or "-")
+    return lines, exp
+
+
 class Prop(object):
     id = "C15"
     lean_modules = ["VC2.Props.C15"]
@@ -277,6 +329,8 @@ class Prop(object):
         self._bad = None
         lines, exp = group_lines(rng, ctx.n(600, 8000))
         ctx.diff("so iter_custom_options_dicts / zip_longest_repeating_final_value on synthetic tables: model == real", lines, exp)
+        lines, exp = color_spec_lines(rng, ctx.n(800, 10000))
+        ctx.diff("so iter_color_spec_options (real preset table, random level columns, nested primaries/matrix/transfer function): model == real", lines, exp)
         ctx.corr_names.append("REAL iter_sequence_headers -> serialise -> REAL validator: accepted, decodes to the configured format")
         directed = level_formats()
         ctx.count("directed-level-formats", len(directed))
